@@ -123,6 +123,7 @@ def run(rep, idx, tier):
     _glue.reset_discipline(rep, "C16.6", idx, ["gpio:Peripheral", "gpio:Peripheral.Output._FieldAction"],
                            allowed=[("Peripheral", "pin_i_sync_ff")])
     _glue.write_once_handles(rep, "C16.6", idx, "gpio:Peripheral")
+    _glue.param_refusals(rep, "C16.5", idx, only=["gpio:Peripheral.__init__"])
     c = get_ctx(idx, "gpio:Peripheral.elaborate")
     ctor = get_ctor(idx, "gpio:Peripheral")
     rep.analysed(c.fi.site, ctor.fi.site)
